@@ -496,7 +496,10 @@ def build_instance(name: str, args: list, extra: dict, call: Callable = _direct,
     if keywords and dataclasses.is_dataclass(cls):
         fields = sympy_fields(cls)
         if len(fields) == len(args):
-            return call(label, cls, **dict(zip(fields, args)), **kwargs)
+            items = [*zip(fields, args), *kwargs.items()]
+            if keywords == "reversed":  # keyword arguments in the opposite of the declaration order
+                items.reverse()
+            return call(label, cls, **dict(items))
     return call(label, cls, *args, **kwargs)
 
 
